@@ -274,6 +274,14 @@ class World:
         rng, D = self.rng, self.D
         if 'cmd' in m.commands and rng.random() < 0.3:
             q = rng.random()
+            arg = m.commands['cmd'].argument
+            if q < 0.3 and isinstance(getattr(arg, 'optional', None), list):
+                # the list of optional members changed in place
+                if arg.optional:
+                    arg.optional.pop()
+                else:
+                    arg.optional.extend(list(arg.members)[:1])
+                return 'cmd-optional-in-place'
             if q < 0.5:
                 m.commands['cmd'].argument.optional = ['a', 'b']
                 return 'cmd-optional'
@@ -295,6 +303,12 @@ class World:
             if isinstance(dt, D.EnumType):
                 dt.set_name('renamed')
                 return 'enum-name'
+            if isinstance(dt, D.StructOf) and rng.random() < 0.4:
+                if dt.optional:
+                    dt.optional.pop()
+                else:
+                    dt.optional.extend(list(dt.members)[:1])
+                return 'struct-optional-in-place'
             if isinstance(dt, D.StructOf):
                 dt.members['x'].setProperty('max', 3)
                 return 'nested-dt'
